@@ -38,16 +38,32 @@ def _loops_over_freenum(body):
     return out
 
 
+def _norm_sweep(sw):
+    """one canonical text for the compaction loop of GC_Sweep:
+       - `for (size_t i = 0; i < gc->nslots; ) {` = `size_t i = 0; while (i < gc->nslots) {`
+       - a local alias `struct GCEntry* e = &gc->entries[i];` is substituted (e->x = gc->entries[i].x)
+       - `gc->freelist[gc->freenum++] = X;` = `gc->freelist[gc->freenum] = X; gc->freenum++;` """
+    flat = re.sub(r'\s+', ' ', sw)
+    flat = re.sub(r'for \(size_t i = 0; i < gc->nslots; \) \{', 'size_t i = 0; while (i < gc->nslots) {', flat)
+    m = re.search(r'struct GCEntry\* (\w+) = &gc->entries\[i\]; ', flat)
+    if m:
+        flat = flat.replace(m.group(0), '', 1)
+        flat = re.sub(r'\b%s->' % re.escape(m.group(1)), 'gc->entries[i].', flat)
+    flat = re.sub(r'gc->freelist\[gc->freenum\+\+\] = ([^;]*);', r'gc->freelist[gc->freenum] = \1; gc->freenum++;', flat)
+    return flat
+
+
 def _sweep_pends_unmarked_nonroot(sw):
     """The compaction loop `while (i < gc->nslots)` appends gc->entries[i].ptr to the pending list
-    exactly when the entry is occupied, unmarked and not a root.  Accepted shapes (the condition under
-    which the append is reached is computed from them, it must be  hash!=0 & !marked & !root ):
-      skips    if (A or B ...) { i++; continue; }      before the append, atoms among
+    exactly when the entry is occupied, unmarked and not a root.  The condition under which the append
+    is reached is COMPUTED from the statements before it (after _norm_sweep), it must be
+    hash!=0 & !marked & !root:
+      skips    if (A or B ...) { i++; continue; }      atoms among
                `gc->entries[i].hash is 0`, `gc->entries[i].marked`, `gc->entries[i].root`
       guard    if (not gc->entries[i].root and not gc->entries[i].marked) { append ...   (either order)"""
     if not sw:
         return False
-    flat = re.sub(r'\s+', ' ', sw)
+    flat = _norm_sweep(sw)
     m = re.search(r'while \(i < gc->nslots\) \{(.*?)gc->freelist\[gc->freenum\] = gc->entries\[i\]\.ptr; gc->freenum\+\+;', flat)
     if not m:
         return False
@@ -56,23 +72,62 @@ def _sweep_pends_unmarked_nonroot(sw):
     excluded = set()
     rest = pre
     for sk in re.finditer(r'if \(([^{}]*?)\) \{ i\+\+; continue; \}', pre):
-        for a in re.split(r'\s+or\s+', sk.group(1).strip()):
-            a = a.strip()
-            if a not in atoms:
+        for at in re.split(r'\s+or\s+', sk.group(1).strip()):
+            at = at.strip()
+            if at not in atoms:
                 return False
-            excluded.add(atoms[a])
+            excluded.add(atoms[at])
         rest = rest.replace(sk.group(0), '', 1)
     rest = rest.strip()
     if rest:
         g = re.fullmatch(r'if \(([^{}]*)\) \{', rest)
         if not g:
             return False
-        for a in re.split(r'\s+and\s+', g.group(1).strip()):
-            mm = re.fullmatch(r'not (gc->entries\[i\]\.(?:marked|root))', a.strip())
+        for at in re.split(r'\s+and\s+', g.group(1).strip()):
+            mm = re.fullmatch(r'not (gc->entries\[i\]\.(?:marked|root))', at.strip())
             if not mm:
                 return False
             excluded.add(atoms[mm.group(1)])
     return excluded == {'empty', 'marked', 'root'}
+
+
+def _rem_ptr_table_hit(rem):
+    """After the pending-list loop, GC_Rem_Ptr finalises the entry it finds, once, after taking it out:
+    exactly one dealloc(destruct(X)) with X = ptr (the entry was found under `entries[i].ptr is ptr`, or
+    by a lookup helper keyed on ptr) or X = freeitem with `var freeitem = gc->entries[i].ptr;` before it;
+    a statement that takes slot i out of the table (inline `memset(&gc->entries[i]` or a helper
+    `GC_<Name>(gc, i);`) between the hit and the finalisation; no return in between.  HOW the slot is
+    emptied and the count kept is C17's subject (and is compared white-box after every operation)."""
+    if not rem:
+        return False
+    flat = re.sub(r'\s+', ' ', rem)
+    m = re.search(r'for \([^)]*gc->freenum[^)]*\) \{', flat)
+    if not m:
+        return False
+    i, depth = m.end() - 1, 0
+    while i < len(flat):
+        depth += flat[i] == '{'; depth -= flat[i] == '}'
+        if depth == 0:
+            break
+        i += 1
+    rest = flat[i + 1:]
+    ds = list(re.finditer(r'dealloc\(destruct\((\w+)\)\);', rest))
+    if len(ds) != 1:
+        return False
+    x, before = ds[0].group(1), rest[:ds[0].start()]
+    hit = max(before.rfind('if (gc->entries[i].ptr is ptr) {'), before.rfind('if (gc->entries[i].ptr == ptr) {'),
+              (lambda mm: mm.end() if mm else -1)(re.search(r'size_t i = GC_\w+\(gc, ptr\); if \(i >= gc->nslots\) \{ return; \}', before)))
+    if hit < 0:
+        return False
+    seg = before[hit:]
+    if x == 'freeitem':
+        if 'var freeitem = gc->entries[i].ptr;' not in seg:
+            return False
+    elif x != 'ptr':
+        return False
+    if 'return' in seg.replace('if (i >= gc->nslots) { return; }', ''):
+        return False
+    return re.search(r'memset\(&gc->entries\[i\]|\bGC_\w+\(gc, i\);', seg) is not None
 
 
 def generate(repo, emit, src, func_body):
@@ -138,18 +193,108 @@ def generate(repo, emit, src, func_body):
         return m.group(1).strip() if m else None
 
     def to_coq(e):
-        """small arithmetic expressions over gc->nitems: literals, + * /, parentheses (C unsigned = nat here)"""
-        e2 = e.replace('gc->nitems', 'n')
-        if not re.fullmatch(r'[n0-9+*/() ]+', e2) or re.search(r'\d{7,}', e2):
+        """C expression over the item count -> Coq nat expression.  Grammar: ternary `c ? a : b`,
+        comparisons < <= > >= == !=, + - * /, parentheses, literals, the variable; a call F(arg) of a
+        static helper `static size_t F(size_t x) { [size_t v = E;]* return E; }` is inlined (one level,
+        single-assignment locals substituted).  Unsigned C arithmetic = nat on the proved domain
+        (no subtraction that could go below zero is accepted: `-` is rejected)."""
+        toks = re.findall(r'\d+|[A-Za-z_][A-Za-z_0-9]*(?:->[A-Za-z_]+)?|<=|>=|==|!=|[-+*/()<>?:,]', e)
+        if ''.join(toks) != re.sub(r'\s+', '', e):
             return None
-        depth = 0
-        for ch in e2:
-            depth += ch == '('; depth -= ch == ')'
-            if depth < 0:
+        pos = [0]
+
+        def peek():
+            return toks[pos[0]] if pos[0] < len(toks) else None
+
+        def eat(t=None):
+            x = peek()
+            if x is None or (t is not None and x != t):
+                raise ValueError(e)
+            pos[0] += 1
+            return x
+
+        def primary(env):
+            x = eat()
+            if x == '(':
+                v = ternary(env); eat(')'); return '(%s)' % v
+            if re.fullmatch(r'\d+', x):
+                if len(x) > 6:
+                    raise ValueError(x)
+                return x
+            if x in env:
+                return env[x]
+            if peek() == '(':                      # helper call, one argument
+                eat('('); arg = ternary(env); eat(')')
+                return '(%s)' % inline(x, arg)
+            raise ValueError(x)
+
+        def mul(env):
+            v = primary(env)
+            while peek() in ('*', '/'):
+                op = eat(); v = '%s %s %s' % (v, op, primary(env))
+            return v
+
+        def add(env):
+            v = mul(env)
+            while peek() == '+':
+                eat(); v = '%s + %s' % (v, mul(env))
+            return v
+
+        def cmp_(env):
+            v = add(env)
+            if peek() in ('<', '<=', '>', '>=', '==', '!='):
+                op = eat(); w = add(env)
+                return {'<': '(%s <? %s)', '<=': '(%s <=? %s)', '>': '(%s <? %s)', '>=': '(%s <=? %s)',
+                        '==': '(%s =? %s)', '!=': '(negb (%s =? %s))'}[op] % ((w, v) if op in ('>', '>=') else (v, w))
+            return v
+
+        def ternary(env):
+            c = cmp_(env)
+            if peek() == '?':
+                eat('?'); x = ternary(env); eat(':'); y = ternary(env)
+                return '(if %s then %s else %s)' % (c, x, y)
+            return c
+
+        def inline(fname, arg):
+            fb = func_body(gc, r'static\s+size_t\s+%s\s*\(\s*size_t\s+(\w+)\s*\)\s*\{' % re.escape(fname))
+            hm = re.search(r'static\s+size_t\s+%s\s*\(\s*size_t\s+(\w+)\s*\)' % re.escape(fname), gc)
+            if not fb or not hm or depth[0] > 0:
+                raise ValueError(fname)
+            depth[0] += 1
+            env2 = {hm.group(1): '(%s)' % arg}
+            body = re.sub(r'\s+', ' ', fb).strip()[1:-1].strip()
+            stmts = [x.strip() for x in body.split(';') if x.strip()]
+            for st in stmts[:-1]:
+                lm = re.fullmatch(r'size_t (\w+) = (.*)', st)
+                if not lm or lm.group(1) in env2:
+                    raise ValueError(st)
+                env2[lm.group(1)] = '(%s)' % sub(lm.group(2), env2)
+            rm = re.fullmatch(r'return (.*)', stmts[-1])
+            if not rm:
+                raise ValueError(stmts[-1])
+            v = sub(rm.group(1), env2)
+            depth[0] -= 1
+            return v
+
+        def sub(text, env):
+            save_t, save_p = toks[:], pos[0]
+            t2 = re.findall(r'\d+|[A-Za-z_][A-Za-z_0-9]*(?:->[A-Za-z_]+)?|<=|>=|==|!=|[-+*/()<>?:,]', text)
+            if ''.join(t2) != re.sub(r'\s+', '', text):
+                raise ValueError(text)
+            toks[:] = t2; pos[0] = 0
+            v = ternary(env)
+            if pos[0] != len(toks):
+                raise ValueError(text)
+            toks[:] = save_t; pos[0] = save_p
+            return v
+        depth = [0]
+        try:
+            v = ternary({'gc->nitems': 'n'})
+            if pos[0] != len(toks):
                 return None
-        if depth or re.search(r'[+*/]\s*[+*/)]|\(\s*[+*/]|[n0-9)]\s+[n0-9(]|^\s*[+*/]|[+*/]\s*$|\(\s*\)', e2):
+            return v
+        except (ValueError, KeyError):
             return None
-        return e2
     e_sw, e_rem = mitems_expr(func_body(gc, r'void\s+GC_Sweep\s*\(struct GC\*\s*gc\)\s*\{')), mitems_expr(grem)
     coq_rule = to_coq(e_sw) if (e_sw is not None and e_sw == e_rem) else None
     emit('gc_mitems_rule', None if coq_rule is None else
@@ -168,21 +313,31 @@ def generate(repo, emit, src, func_body):
     rp = rem and re.sub(r'\s+', ' ', rem)
     # a table hit: the entry's pointer is saved, the entry is taken out (how is C17's subject: inline
     # back-shift or a helper), then the object is finalised and GC_Rem_Ptr returns
-    need('GC_Rem_Ptr finalises a table hit', bool(rp) and re.search(
-        r'if \(gc->entries\[i\]\.ptr (is|==) ptr\) \{ var freeitem = gc->entries\[i\]\.ptr; '
-        r'(?:(?!dealloc|return|freeitem).)*? dealloc\(destruct\(freeitem\)\); return; \}', rp) is not None)
+    need('GC_Rem_Ptr finalises a table hit', _rem_ptr_table_hit(rem))
 
     al = src('src/Alloc.c')
     delby = func_body(al, r'static\s+void\s+del_by\s*\(var self, int method\)\s*\{')
-    need('del/del_root = rem(current(GC), self)', has(delby, r'case ALLOC_STANDARD: case ALLOC_ROOT: #ifndef CELLO_NGC rem\(current\(GC\), self\); return; #endif'))
+    # the allocation methods are exactly ALLOC_STANDARD, ALLOC_RAW, ALLOC_ROOT, so `method isnt ALLOC_RAW`
+    # is "ALLOC_STANDARD or ALLOC_ROOT"
+    three = re.search(r'enum \{ ALLOC_STANDARD, ALLOC_RAW, ALLOC_ROOT \};', re.sub(r'\s+', ' ', al)) is not None
+    need('del/del_root = rem(current(GC), self)',
+         has(delby, r'case ALLOC_STANDARD: case ALLOC_ROOT: #ifndef CELLO_NGC rem\(current\(GC\), self\); return; #endif')
+         or (three and has(delby, r'^\{ #ifndef CELLO_NGC if \(method isnt ALLOC_RAW\) \{ rem\(current\(GC\), self\); return; \} #endif')))
     need('del_raw = dealloc(destruct(self))', has(delby, r'dealloc\(destruct\(self\)\); \}$'))
     allocby = func_body(al, r'static\s+var\s+alloc_by\s*\(var type, int method\)\s*\{')
-    need('alloc registers managed objects', has(allocby, r'case ALLOC_STANDARD: #ifndef CELLO_NGC set\(current\(GC\), self, \$I\(0\)\);'))
-    need('alloc_root registers roots', has(allocby, r'case ALLOC_ROOT: #ifndef CELLO_NGC set\(current\(GC\), self, \$I\(1\)\);'))
+    # registration with the root flag: switch form, or `if (method isnt ALLOC_RAW) set(.., $I(method is ALLOC_ROOT))`
+    # (`is` is ==: 1 for ALLOC_ROOT, 0 for ALLOC_STANDARD; `? 1 : 0` is the same)
+    ifreg = three and has(allocby, r'#ifndef CELLO_NGC if \(method isnt ALLOC_RAW\) \{ set\(current\(GC\), self, \$I\(method is ALLOC_ROOT(?: \? 1 : 0)?\)\); \} #endif return self; \}$')
+    need('alloc registers managed objects', ifreg or has(allocby, r'case ALLOC_STANDARD: #ifndef CELLO_NGC set\(current\(GC\), self, \$I\(0\)\);'))
+    need('alloc_root registers roots', ifreg or has(allocby, r'case ALLOC_ROOT: #ifndef CELLO_NGC set\(current\(GC\), self, \$I\(1\)\);'))
 
     ptr = src('src/Pointer.c')
     bdel = func_body(ptr, r'static\s+void\s+Box_Del\s*\(var self\)\s*\{')
-    need('Box_Del dels the owned object', has(bdel, r'var obj = Box_Deref\(self\); if \(obj\) \{ del\(obj\); \} Box_Ref\(self, NULL\);'))
+    # Box_Del: read the pointer, del what it points at (if anything), pointer cleared.  Clearing before the
+    # del is the same for the ledger: the pointer has been read, and only this Box's own destructor reads it
+    need('Box_Del dels the owned object',
+         has(bdel, r'^\{ var obj = Box_Deref\(self\); if \(obj\) \{ del\(obj\); \} Box_Ref\(self, NULL\); \}$')
+         or has(bdel, r'^\{ struct Box\* b = self; var obj = b->val; b->val = NULL; if \(obj is NULL\) \{ return; \} del\(obj\); \}$'))
 
     th = src('src/Thread.c')
     run = func_body(th, r'static\s+var\s+Thread_Init_Run\s*\(var self\)\s*\{')
